@@ -128,6 +128,7 @@ type Request struct {
 	Method string
 	Height int64  // for *-by-height, else -1
 	Hash   string // for raw-data
+	Client string // value of the "client" query parameter of the URL, if any
 }
 
 // Server is the fake factomd.
@@ -407,6 +408,11 @@ func (s *Server) handle(w http.ResponseWriter, r *http.Request) {
 	if p.Height != nil {
 		req.Height = int64(*p.Height)
 	}
+	tipOverride := int64(-1)
+	if t := r.URL.Query().Get("tip"); t != "" {
+		fmt.Sscan(t, &tipOverride)
+	}
+	req.Client = r.URL.Query().Get("client")
 	s.mu.Lock()
 	s.seq++
 	req.Seq = s.seq
@@ -420,7 +426,12 @@ func (s *Server) handle(w http.ResponseWriter, r *http.Request) {
 	var result interface{}
 	var errText string
 	if fault == "" {
+		saved := s.tip
+		if tipOverride >= 0 {
+			s.tip = uint32(tipOverride)
+		}
 		result, errText = s.answer(q.Method, req, p.Hash)
+		s.tip = saved
 	} else {
 		errText = fault
 	}
